@@ -160,6 +160,13 @@ def gen_cases(rng, tier):
                 for (n, m) in ((1, 1), (2, 1), (1, 4), (3, 2), (4, 4), (2, 8)):
                     c = _one(rng, tier, est=est, n=n, m=m, ploidy=ploidy, phased=phased)
                     cases.append(c)
+    # indefinite matrices (negative ndarray weights are accepted by the code, outside the property's quantifier): they separate
+    # "largest diagonal entry" from "largest entry" and exercise the summaries on matrices that are not Gram matrices
+    for (n, m) in ((3, 4), (4, 3), (5, 8), (6, 5)):
+        c = _one(rng, tier, est="gw", n=n, m=m, ploidy=2, phased=False)
+        c["wt"] = {"a": [-(rng.randint(1, 32) / 16.0) for _ in range(m)]}
+        c["pref"] = rng.choice([None, {"s": 0.5}])
+        cases.append(c)
     N = 150 if tier == "quick" else 2600
     for _ in range(N):
         cases.append(_one(rng, tier))
